@@ -18,6 +18,10 @@ Interface of a transcription:   fn(kw, env) -> float
            env.xs        the optimal / stationary / fixed point the example declares first (numpy vector) or None
            env.special   all such points in call order: list of ("stationary" | "fixed", vector)
     returns the performance measure documented for the example (same normalisation as its initial condition).
+
+METHODS holds the transcriptions that agree with the shipped bodies on the unmodified tree (the selftest).  DOCUMENTED_ONLY
+holds readings of docstrings whose body does something else already on the unmodified tree (index shifts, a missing factor,
+another output point ...): they are kept as written in the docstring, are never compared, and are listed for the record.
 """
 import numpy as np
 
